@@ -132,7 +132,19 @@ func keGenScript(tp *simcore.Tape, k int) *keScript {
 	}
 	if tp.Bool(1, 6, "errrec") {
 		code := []uint16{0, 1, 2, 3, 0x8000, 0xffff}[tp.Intn(6, "errcode")]
-		ins(keRecord{Type: 2, Critical: true, Body: u16(code), Note: fmt.Sprintf("error(%d)", code)})
+		// (also without the critical bit, and with a body that is not the two bytes of a code:
+		// an error record is an error record)
+		body := u16(code)
+		switch tp.Intn(6, "errbody") {
+		case 0:
+			body = nil
+		case 1:
+			body = body[:1]
+		case 2:
+			body = append(body, 0, 0)
+		}
+		crit := !tp.Bool(1, 3, "errnoncrit")
+		ins(keRecord{Type: 2, Critical: crit, Body: body, Note: fmt.Sprintf("error(%d,crit=%v,len=%d)", code, crit, len(body))})
 	}
 	if tp.Bool(1, 8, "warnrec") {
 		ins(keRecord{Type: 3, Critical: tp.Bool(1, 2, "warncrit"), Body: u16(uint16(tp.Intn(3, "warncode"))), Note: "warning"})
@@ -336,6 +348,9 @@ func c20World(t *testing.T, r *simcore.Run) any {
 				switch {
 				case strings.HasPrefix(rec.Note, "error"):
 					r.Fault("peer:error-record")
+					if !rec.Critical || len(rec.Body) != 2 {
+						r.Probe("error-record-not-critical-or-of-odd-length")
+					}
 				case rec.Note == "warning":
 					r.Fault("peer:warning-record")
 				case rec.Note == "unknown" && rec.Critical:
